@@ -203,7 +203,7 @@ class FutureResult(object):
         try:
             # Call the method
             result = method(*args, **kwargs)
-        except Exception as ex:
+        except BaseException as ex:
             # Something went wrong: propagate to the event and to the caller
             self._done_event.raise_exception(ex)
             raise
@@ -494,7 +494,7 @@ class ThreadPool(object):
                     try:
                         # Call the method
                         future.execute(method, args, kwargs)
-                    except Exception as ex:
+                    except BaseException as ex:
                         self._logger.exception(
                             "Error executing %s: %s",
                             getattr(method, "__name__", method),
